@@ -12,7 +12,7 @@ Local Open Scope list_scope.
 Definition C08_interleavings (on_fragment : bool) : Prop :=
   forall (term : Type) ft fnd and_ ie fo wi st iss selt mkr ra (s0 : qstate term) (l1 l2 : list (call term)),
     all_commuting term l1 = true ->
-    (if on_fragment then fragment term fnd l1 else True) ->
+    (if on_fragment then fragment term l1 else True) ->
     same_kind_order term l1 l2 ->
     forall q1, run term ft fnd and_ ie fo wi st iss selt mkr ra s0 l1 = Ok q1 ->
     exists q2, run term ft fnd and_ ie fo wi st iss selt mkr ra s0 l2 = Ok q2
@@ -51,11 +51,14 @@ Definition C08_clause_order : Prop :=
 Definition C08_full_statement : Prop :=
   C08_interleavings false /\ C08_accumulate /\ C08_clause_order.
 
-(* ---- the full statement is false: JoinOn.validate reads _with at call time ------------------------------- *)
+(* ---- the full statement is false: do_join's automatic alias  <table><k>  reads _with at call time -------------- *)
+(* (until pypika 160d589 the witness was JoinOn.validate reading _with; that one is repaired, see
+   C08_with_reference_any_order below; the numbered alias introduced by 10401de consults the WITH names) *)
 Definition w_s0 : cstate := match crun (init cterm) [CFrom _ (Tab "a" None) 0%Z] with Ok s => s | Err _ => init cterm end.
-Definition w_crit : cterm := CArg "#w.x==v.x" [Some (Tab "v" None); Some (Wq "w")] [Some (Wq "w"); Some (Tab "v" None)] None false false.
-Definition w_with : ccall := CWith _ "w" (CArg "#sub" [] [] None false false).
-Definition w_join : ccall := CJoin _ (Tab "v" None) "inner" (JSOn _ w_crit None).
+Definition w_sub : cterm := CArg "#sub" [] [] None false false.
+Definition w_crit : cterm := CArg "#a.x==a_.y" [Some (Tab "a" None)] [Some (Tab "a" None); Some (Tab "a" None)] None false false.
+Definition w_with : ccall := CWith _ "a2" w_sub.
+Definition w_join : ccall := CJoin _ (Tab "a" None) "inner" (JSOn _ w_crit None).
 Definition w_select : ccall := CSelect _ [SStr _ "x"].
 
 Theorem C08_refuted : ~ C08_full_statement.
@@ -63,23 +66,40 @@ Proof.
   intros [H _].
   assert (Hk : same_kind_order cterm [w_with; w_join; w_select] [w_join; w_with; w_select])
     by (intro k; destruct k; reflexivity).
-  assert (Hr : exists q1, crun w_s0 [w_with; w_join; w_select] = Ok q1) by (vm_compute; eexists; reflexivity).
-  destruct Hr as [q1 Hr].
-  destruct (H cterm c_fields_tables c_find_tables c_and c_is_empty CFieldOf CInt CStar c_is_star c_sel_table CRollupT c_rollup_args
-              w_s0 [w_with; w_join; w_select] [w_join; w_with; w_select] eq_refl I Hk q1 Hr) as [q2 [H2 _]].
-  vm_compute in H2. discriminate.
+  assert (Hr : exists q1, crun w_s0 [w_with; w_join; w_select] = Ok q1
+                          /\ q_joins _ q1 = [JOn _ (Tab "a" (Some "a3")) "inner" w_crit None])
+    by (vm_compute; eexists; split; reflexivity).
+  destruct Hr as [q1 [Hr Hj]].
+  destruct (H cterm c_fields_tables c_find_tables c_and c_is_empty CFieldOf CInt CStar c_is_star c_sel_table CRollupT
+              c_rollup_args w_s0 [w_with; w_join; w_select] [w_join; w_with; w_select] eq_refl I Hk q1 Hr)
+    as [q2 [H2 [[E _] _]]].
+  pose proof (E S_joins eq_refl) as Ej. simpl in Ej. rewrite Hj in Ej.
+  vm_compute in H2. injection H2 as <-. vm_compute in Ej. discriminate.
 Qed.
 Print Assumptions C08_refuted.
 
-(* the witness, spelled out: same calls, one order renders, the other raises JoinException *)
+(* the witness, spelled out: WITH a2 first -> the joined "a" is named a3; join first -> it is named a2 *)
 Example C08_witness :
-  (exists q, crun w_s0 [w_with; w_join; w_select] = Ok q)
-  /\ crun w_s0 [w_join; w_with; w_select] = Err "JoinException"
-  /\ fragmentb cterm c_find_tables [w_with; w_join; w_select] = false.
-Proof. split; [vm_compute; eexists; reflexivity|]. split; vm_compute; reflexivity. Qed.
+  (exists q, crun w_s0 [w_with; w_join; w_select] = Ok q
+             /\ map d_join (q_joins _ q) = ["ON(T(a,a3)|inner|#a.x==a_.y|~)"])
+  /\ (exists q, crun w_s0 [w_join; w_with; w_select] = Ok q
+                /\ map d_join (q_joins _ q) = ["ON(T(a,a2)|inner|#a.x==a_.y|~)"])
+  /\ fragmentb cterm [w_with; w_join; w_select] = false.
+Proof. split; [vm_compute; eexists; split; reflexivity|]. split; [vm_compute; eexists; split; reflexivity|reflexivity]. Qed.
 Print Assumptions C08_witness.
 
-(* ---- it holds whenever no join criterion mentions the name of a WITH query added in the same list --------- *)
+(* regression of the repaired finding (pypika 160d589): a join criterion naming a WITH query is accepted before and
+   after with_(), with the same state; and that list is inside the fragment *)
+Definition v_crit : cterm := CArg "#w.x==v.x" [Some (Tab "v" None); Some (Wq "w")] [Some (Wq "w"); Some (Tab "v" None)] None false false.
+Definition v_with : ccall := CWith _ "w" w_sub.
+Definition v_join : ccall := CJoin _ (Tab "v" None) "inner" (JSOn _ v_crit None).
+Example C08_with_reference_any_order :
+  (exists q, crun w_s0 [v_with; v_join; w_select] = Ok q /\ crun w_s0 [v_join; v_with; w_select] = Ok q)
+  /\ fragmentb cterm [v_with; v_join; w_select] = true.
+Proof. split; [vm_compute; eexists; split; reflexivity|reflexivity]. Qed.
+Print Assumptions C08_with_reference_any_order.
+
+(* ---- it holds whenever no WITH name added in the list starts with the name of an un-aliased table joined in it ---- *)
 Theorem C08_on_fragment : C08_interleavings true /\ C08_accumulate /\ C08_clause_order.
 Proof.
   split; [|split].
@@ -118,7 +138,7 @@ Print Assumptions C08_footprints.
 Theorem C08_swap_adjacent : forall term ft fnd and_ ie fo wi st iss selt mkr ra s c1 c2 a b,
   commuting (kind_of term c1) = true -> commuting (kind_of term c2) = true ->
   kind_eqb (kind_of term c1) (kind_of term c2) = false ->
-  compat term fnd c1 c2 = true -> compat term fnd c2 c1 = true ->
+  compat term c1 c2 = true -> compat term c2 c1 = true ->
   step term ft fnd and_ ie fo wi st iss selt mkr ra s c1 = Ok a -> step term ft fnd and_ ie fo wi st iss selt mkr ra a c2 = Ok b ->
   exists a' b', step term ft fnd and_ ie fo wi st iss selt mkr ra s c2 = Ok a'
                 /\ step term ft fnd and_ ie fo wi st iss selt mkr ra a' c1 = Ok b' /\ equiv term b b'.
@@ -148,7 +168,7 @@ Definition ex_s0 : cstate := match crun (init cterm) [CFrom _ ex_t 0%Z] with Ok 
 
 Example C08_example :
   all_commuting cterm ex_calls = true
-  /\ fragmentb cterm c_find_tables ex_calls = true
+  /\ fragmentb cterm ex_calls = true
   /\ (forall k, kfilter cterm k ex_calls = kfilter cterm k (pick ex_calls ex_perm))
   /\ (exists q1 q2, crun ex_s0 ex_calls = Ok q1 /\ crun ex_s0 (pick ex_calls ex_perm) = Ok q2
         /\ q_foreign_table _ q1 = true /\ q_foreign_table _ q2 = false     (* the call-time flag differs ... *)
